@@ -405,6 +405,14 @@ def judge(ctx, s, ops, variant=(1, 1, 1)):
         ctx.mismatch("C04/reports", dict(inp, first_differing_report=bad[:1]), obs, mod)
     else:
         ctx.hit("model=impl")
+        # informational (no verdict: the property fixes the direction and the range, not the
+        # representative): do implementation and model also report the SAME numbers, i.e. the
+        # convention proved in lonlat_of_xyz_of_lonlat / wrap180_seam (seam -> -180, cap -> lon 0)?
+        for a, b in zip(impl, model):
+            if a[0] == "ll" and a[2] is not None and len(a[2][0]):
+                away = np.abs(b[2][1]) < 89.99
+                same = np.all(np.abs(a[2][1] - b[2][1]) <= 1e-8) and np.all(np.abs(a[2][0] - b[2][0])[away] <= 1e-8)
+                ctx.hit("representative:identical" if same else "note:representative-differs")
     # observation outside the property's statement: normalize_cartesian_coordinates leaves stored
     # centre vectors un-normalised when the nodes are already unit (its check looks at nodes only)
     if 6 in ops:
